@@ -369,8 +369,11 @@ def wind_obligations(P):
     wa = _atom(wd)
     for deg, (eu, ev), name in ((0, (ZERO, -U), "south"), (90, (-U, ZERO), "west"), (180, (ZERO, U), "north"), (270, (U, ZERO), "east")):
         if isinstance(u, Expr) and isinstance(v, Expr):
-            obs.append(eq_ob("R-WIND", site, "wind_dir=%d blows toward %s (u)" % (deg, name), u.subs({wa: alg.const(deg)}), eu))
-            obs.append(eq_ob("R-WIND", site, "wind_dir=%d blows toward %s (v)" % (deg, name), v.subs({wa: alg.const(deg)}), ev))
+            for comp, val, want in (("u", u, eu), ("v", v, ev)):
+                try:
+                    obs.append(eq_ob("R-WIND", site, "wind_dir=%d blows toward %s (%s)" % (deg, name, comp), val.subs({wa: alg.const(deg)}), want))
+                except ZeroDivisionError:
+                    obs.append(req_ob("R-WIND", site, "wind_dir=%d blows toward %s (%s)" % (deg, name, comp), False, detail="the component divides by zero at this direction: %s" % repr(val)[:160]))
     # speed preserved: same amplitude, sine and cosine of the same angle (Pythagoras trusted)
     if isinstance(u, Expr) and isinstance(v, Expr):
         su = [a for a in u.atoms() if a.kind == "fn" and a.name in ("sin", "cos")]
